@@ -1,0 +1,31 @@
+//go:build verif
+
+package machine
+
+import "sync/atomic"
+
+// Verification hooks (build tag "verif" only). VerifHook, when set, is called
+// at named points of the machine; a blocking hook doubles as a scheduler gate.
+
+// VerifHook receives the machine and the name of the point being passed.
+var VerifHook atomic.Pointer[func(m *Machine, point string)]
+
+func verifAt(m *Machine, point string) {
+	if fn := VerifHook.Load(); fn != nil {
+		(*fn)(m, point)
+	}
+}
+
+// VerifTopology returns the Require topology computed by the default resolver.
+func VerifTopology(m *Machine) S {
+	rr, ok := m.resolver.(*DefaultRelationsResolver)
+	if !ok {
+		return nil
+	}
+	return append(S{}, rr.topology...)
+}
+
+// VerifQueueProcessing exposes the queue-processing flag.
+func VerifQueueProcessing(m *Machine) bool {
+	return m.queueProcessing.Load()
+}
